@@ -225,6 +225,14 @@ class GaussianKDE(DensityEstimator):
         else:  # else just use the entire range of the samples
             lwr, upr = self.sample[0], self.sample[-1]
 
+        # the estimate can have several local maxima inside the search interval, so
+        # bracket the highest one using a grid with a spacing of a fraction of the
+        # bandwidth before refining its position
+        n_grid = max(int(4 * (upr - lwr) / self.h) + 2, 3)
+        grid = linspace(lwr, upr, n_grid)
+        i = argmax(self(grid))
+        lwr, upr = grid[max(i - 1, 0)], grid[min(i + 1, n_grid - 1)]
+
         result = minimize_scalar(
             lambda x: -self(x),
             bounds=[lwr, upr],
